@@ -146,3 +146,27 @@ def interval_union_covers(writes, extent):
                 used.add(i)
                 changed = True
     return sp.expand(pos - extent) == 0
+
+
+def profile_row(src):
+    """which row of the [B][N] X projection does a copy source denote?  Accepted spellings:
+       origin(getProjection(_phasespace,0)[r])  and  origin(getProjection(_phasespace,0)) + N*r.
+       -> row expression r, or None if the source is something else"""
+    if src is None:
+        return None
+    org = [x for x in src.atoms(sp.Function) if str(x.func) == "origin"]
+    if len(org) != 1:
+        return None
+    rest = sp.expand(S.norm(src - org[0]))
+    inner = str(org[0].args[0]).replace(" ", "")
+    if inner == "getProjection(_phasespace,0)":
+        q = sp.expand(rest / S.N)
+        return q if not q.has(S.N) else None
+    import re
+    m = re.fullmatch(r"getProjection\(_phasespace,0\)\[(.+)\]", inner)
+    if m and rest == 0:
+        try:
+            return sp.sympify(m.group(1), locals={"n": sp.Symbol("n", integer=True), "b": sp.Symbol("b", integer=True)})
+        except Exception:
+            return None
+    return None
